@@ -2,3 +2,5 @@ pub mod ref_tsx;
 pub mod ref_digest;
 pub mod ref_stun;
 pub mod ref_select;
+pub mod ref_route;
+pub mod ref_sip;
